@@ -16,6 +16,12 @@
 #include <signal.h>
 #include <sys/mman.h>
 #include <sys/stat.h>
+#if defined(__has_feature)
+#if __has_feature(address_sanitizer)
+#define VERIF_HAVE_LSAN 1
+#include <sanitizer/lsan_interface.h>
+#endif
+#endif
 
 using namespace verif;
 
@@ -364,7 +370,7 @@ static int usage() {
 
 int main(int argc, char** argv) {
     std::string mode, file, out, known, work = ".";
-    uint64_t seed = 1, cases = 1000, worker = 0, workers = 1, max_seconds = 0;
+    uint64_t seed = 1, cases = 1000, worker = 0, workers = 1, max_seconds = 0, wlo = 0, whi = ~0ULL;
     size_t maxlen = 0;
     int tier = 0;
     std::vector<std::string> files;
@@ -376,6 +382,9 @@ int main(int argc, char** argv) {
         else if (a == "--shrink") { mode = "shrink"; file = next(); }
         else if (a == "--enumerate") mode = "enumerate";
         else if (a == "--merge-hashes") { mode = "merge"; while (i + 1 < argc) files.push_back(argv[++i]); }
+        else if (a == "--window") { mode = "window"; file = next(); }
+        else if (a == "--lo") wlo = strtoull(next().c_str(), nullptr, 10);
+        else if (a == "--hi") whi = strtoull(next().c_str(), nullptr, 10);
         else if (a == "--out") out = next();
         else if (a == "--seed") seed = strtoull(next().c_str(), nullptr, 10);
         else if (a == "--cases") cases = strtoull(next().c_str(), nullptr, 10);
@@ -423,6 +432,21 @@ int main(int argc, char** argv) {
             return o.known ? 4 : 1;
         }
         printf("REPLAY-OK\n");
+        return 0;
+    }
+
+    if (mode == "window") {
+        // run cases [lo,hi) of a leak window file; LeakSanitizer decides at exit
+        std::vector<uint8_t> raw;
+        if (!read_file(file, raw)) return 2;
+        size_t off = 0, idx = 0;
+        while (off + 4 <= raw.size()) {
+            uint32_t n; memcpy(&n, raw.data() + off, 4);
+            if (off + 4 + n > raw.size()) break;
+            if (idx >= wlo && idx < whi) run_case(ctx, raw.data() + off + 4, n);
+            off += 4 + n; ++idx;
+        }
+        printf("WINDOW-DONE %zu\n", idx);
         return 0;
     }
 
@@ -491,6 +515,8 @@ int main(int argc, char** argv) {
         Rng rng(seed * 0x100000001b3ULL + worker * 0x9e3779b97f4a7c15ULL + 12345);
         std::vector<std::vector<uint8_t>> pool;
         std::vector<uint8_t> v;
+        std::vector<std::vector<uint8_t>> window;
+        double last_leak_check = 0;
         size_t distinct_before = 0;
         for (; done < cases; ++done) {
             if (max_seconds && (done & 63) == 0 && elapsed() > (double)max_seconds) { budget_hit = true; break; }
@@ -508,6 +534,26 @@ int main(int argc, char** argv) {
                 }
             }
             if ((done & 0x3fff) == 0x3fff) ctx.dump(g_stats_path.c_str());
+#ifdef VERIF_HAVE_LSAN
+            // leak oracle: a leaked block stays leaked, so the window of candidate inputs is handed to the
+            // parent, which replays each one in a fresh process (LeakSanitizer runs at exit there)
+            window.push_back(v);
+            if (window.size() >= 256 && (done & 63) == 0 && elapsed() - last_leak_check > 1.5) {
+                last_leak_check = elapsed();
+                if (__lsan_do_recoverable_leak_check()) {
+                    std::string wp = work + "/leakwindow." + std::to_string(worker) + ".bin";
+                    FILE* f = fopen(wp.c_str(), "wb");
+                    if (f) {
+                        for (auto& x : window) { uint32_t n = (uint32_t)x.size(); fwrite(&n, 4, 1, f); if (n) fwrite(x.data(), 1, n, f); }
+                        fclose(f);
+                    }
+                    rc = 5;
+                    ++done;
+                    break;
+                }
+                window.clear();
+            }
+#endif
         }
     }
     ctx.dump(g_stats_path.c_str());
